@@ -43,7 +43,7 @@ Step ==
 
 NextHistory ==
   /\ l = Len(steps) + 1
-  /\ PrintT(<<"VERDICT", Histories[h].id, ToString(bad), ToString(drift)>>)
+  /\ PrintT("VERDICT|" \o Histories[h].id \o "|" \o ToString(bad) \o "|" \o ToString(drift))
   /\ IF h < Len(Histories)
      THEN /\ h' = h + 1 /\ l' = 1 /\ Load(h + 1)
      ELSE /\ l' = l + 1 /\ UNCHANGED <<vars, h, steps, drift>>
